@@ -27,26 +27,44 @@ LEVEL_TEXT = ("Coq theorems over an executable model of the haplotype-block code
               "runs, decode = labels, adjacent runs differ); block values over any partition add up to the copy's additive value; OHV/OPV = "
               "ploidy * sum over blocks of the best designated copy (upper bound, attained), >= every block-boundary recombinant, for every "
               "cross of the (proved valid) cross map of every problem that is built. The model is evaluated inside Coq (vm_compute) against "
-              "the implementation's outputs on generated layouts.")
+              "the implementation's outputs on generated layouts. "
+              "PHASE 2: the kernel expressions of the current source (guards, index expressions, operation order of the ideal counts, argmin, "
+              "linspace arguments, closed bin test, repair-pass bound, run test, slices of the block value, shape, cross-map branches, ploidy "
+              "scaling, the six latent functions; all four copies of the haplotype-matrix builder) are regenerated on every run into "
+              "Gen/C18_Kernel.v; the code composed from them (g_*) is proved equal to the hand model and the apportionment, cover-once/"
+              "monotone, run-length, conservation (four builders) and OHV-problem theorems are restated about the generated code itself, so a "
+              "changed expression breaks Props/C18.vo independently of the sampled cases.")
 LEVEL_NOTE = ("trusted: Coq kernel + vm_compute, PrimFloat primitives + FloatAxioms specs, classical reals via Flocq (binary64 order only); "
               "numpy.empty is instrumented by the driver to return NaN/-1 filled arrays so that never-written entries are observable (modelled "
               "as None); block values, OHV/OPV sums are compared as exact rationals on dyadic grids (BLAS/numpy summation order not modelled); "
               "real/integer/binary OHV latentfn and the genotype-builder latentfn within 2^-30 of the exact rational; finiteness of the binary64 "
-              "linspace boundaries is checked per case, not proved in general; theorems are about the Gallina model, the tie to the code is "
-              "differential on generated inputs")
+              "linspace boundaries is checked per case, not proved in general; theorems are about the Gallina model and about the code composed "
+              "from the regenerated kernel expressions; the tie of loops/data flow to the code is differential on generated inputs, the tie of the "
+              "kernel expressions is by regeneration (translator harness/translate/c18_kernel.py in the trusted base; statements the model "
+              "abstracts — chunking of _calc_ohvmat, order of loop bodies, allocation — are pinned textually and fail closed)")
 TECHNIQUE = "Coq proof over an executable model (generic order; PrimFloat/Flocq and Q instances); in-Coq vm_compute correspondence"
 RULE = ("case = (kind helpers|haplomat|ohv{Subset,Real,Integer,Binary via the selection protocols}|opv|gb, marker layout = chromosome "
         "lengths + genetic positions, requested block total, genotypes, effects, parent tuples / selections, chunk size); layouts from one "
         "PRNG: per chromosome one of even grid (markers exactly on bin boundaries), random grid with duplicates, cluster + far marker (empty "
         "equal-width bin: the repair pass of haplobin moves markers), all-equal/duplicated positions, single marker, off-grid floats (j/7, j/3, random) where linspace rounding decides; "
         "1-4 chromosomes, totals from #chr to #markers plus totals below #chr and above #markers, explicit per-chromosome counts, a few "
-        "unsorted layouts; non-trivial = >= 3 markers, >= 2 blocks requested, >= 2 labels used; "
-        "distinct by SHA-256 of the case")
+        "unsorted layouts; positions scaled by 2^-40..2^20 (whole genome) and 2^-12..2^12 (single chromosomes), gaps of 2^-30..2^-45 next to "
+        "exact ties, effects scaled by 2^-40..2^20, 1-4 phases; the genotype matrix object obtained by constructor, copy, deepcopy, mat setter, "
+        "shuffled variants + group_vrnt, select_taxa; OHV sessions: the same protocol object / matrix / model reused after nhaploblk, "
+        "unique_parents, nparent setters and in-place updates of genotypes, positions, effects (second problem = fresh construction); "
+        "problems: latentfn twice, on copy/deepcopy, after the matrix setter, stored matrix and inputs unchanged, result detached from later "
+        "in-place input changes; _calc_ohvmat with its own ploidy argument; fixed cases: one block more than markers in every builder, 280 "
+        "and 140 blocks (labels beyond int8/uint8), 1081 crosses (> the factory's chunk of 1024); the entry-point table ENTRY/SKIPPED/PARAMS is "
+        "compared with the modules by introspection on every run (fail closed); "
+        "non-trivial = >= 3 markers, >= 2 blocks requested, >= 2 labels used; distinct by SHA-256 of the case")
 TRUSTED = ["numpy.empty instrumented (driver only) so that unwritten entries are visible as NaN / -1",
            "binary64 sums of 0/1 genotypes times effects k/2^8 (|k/2^8| <= 16) are exact: compared as exact rationals",
            "numpy.linspace = arange(0,num)*((stop-start)/div)+start with the last point replaced by stop (numpy 2.x function_base.linspace)",
            "numpy add.reduce over fewer than 8 contiguous float64 is a left-to-right loop",
-           "latentfn of the real/integer/binary OHV problems and of the genotype builder are compared within 2^-30 of the exact rational"]
+           "latentfn of the real/integer/binary OHV problems and of the genotype builder are compared within 2^-30 of the exact rational",
+           "harness/translate/c18_kernel.py (ast -> Gallina for the kernel expressions; sorts O = abstract positions, N = counts/indices, Z, Q; "
+           "glue: zmax3, linspace_num, triudix/triuix = the model's xmap_from)",
+           "scaling by a power of two commutes with every binary64 operation of the code (no overflow/underflow in the generated ranges)"]
 ASSUMPTIONS = ["genetic positions sorted within chromosomes, chromosome groups tile 0..p (as group_vrnt() produces)",
                "alleles in {0,1} (int8), effects finite", "fewer than 8 chromosomes when positions are off the dyadic grid"]
 
@@ -89,19 +107,31 @@ def _chrom_positions(rng, ln, style):
     if style == "rand":
         sc = rng.choice([1.0, 2.5, 100.0, 1e-3])
         return sorted(off + rng.random() * sc for _ in range(ln))
+    if style == "tiny":                                            # exact zeros next to tiny non-zero gaps (a tolerance is not an exact test)
+        v = float(rng.choice([0, 1, -2, 8])); e = rng.choice([-30, -40, -45])
+        xs = sorted(rng.randint(0, 4) for _ in range(ln))
+        if rng.random() < 0.5: xs[0] = 0
+        return [v + x * 2.0 ** e for x in xs]
     raise ValueError(style)
 
 def _layout(rng, exact_only=False, max_chr=4, max_len=8):
     nchr = rng.choice([1, 1, 2, 2, 3, max_chr])
-    styles_e = ["even", "even", "grid", "grid", "grid", "cluster", "dup"]
+    styles_e = ["even", "even", "grid", "grid", "grid", "cluster", "dup", "tiny"]
     styles = styles_e if exact_only else styles_e + ["frac", "frac", "rand"]
     pos, clen, st = [], [], []
     for _ in range(nchr):
         ln = rng.choice([1, 2, 3, 3, 4, 5, 6, max_len]) if rng.random() < 0.85 else rng.randint(1, max_len)
         s = rng.choice(styles)
         if ln == 1: s = "single"
-        pos += _chrom_positions(rng, ln, s); clen.append(ln); st.append(s)
+        c = _chrom_positions(rng, ln, s)
+        if rng.random() < 0.15:                                    # one chromosome on another scale: the apportionment sees very unequal lengths
+            f = 2.0 ** rng.choice([-12, -6, 6, 12]); c = [x * f for x in c]
+        pos += c; clen.append(ln); st.append(s)
     return pos, clen, st
+
+PSCALES = [0, 0, 0, 0, -40, -20, 10, 20]       # whole-genome scale 2^k of the genetic positions (dyadic: every binary64 operation commutes with it)
+USCALES = [0, 0, 0, 0, -40, -20, 20]           # scale 2^k of the marker effects
+ROUTES = ["ctor", "ctor", "deepcopy", "copy", "matset", "shuffle", "select"]
 
 def _pick_nhap(rng, nchr, p):
     r = rng.random()
@@ -126,7 +156,9 @@ def _one(rng, kind):
     exact = kind != "helpers" or rng.random() < 0.35
     pos, clen, st = _layout(rng, exact_only=(kind != "helpers" and rng.random() < 0.7))
     p, nchr = len(pos), len(clen)
-    case = {"kind": kind, "pos": pos, "clen": clen, "styles": st, "nhap": _pick_nhap(rng, nchr, p)}
+    k = rng.choice(PSCALES)
+    pos = [x * 2.0 ** k for x in pos]
+    case = {"kind": kind, "pos": pos, "clen": clen, "styles": st, "nhap": _pick_nhap(rng, nchr, p), "pscale": k}
     if kind == "helpers":
         r = rng.random()
         if r < 0.35:                                               # explicit per-chromosome block numbers for haplobin
@@ -135,8 +167,17 @@ def _one(rng, kind):
             q = list(pos); i = rng.randrange(p); j = rng.randrange(p); q[i], q[j] = q[j], q[i]
             case["pos"] = q; case["unsorted"] = True
         return case
-    m = rng.choice([1, 2, 2, 2, 3]); n = rng.choice([1, 2, 3, 4, 5]); t = rng.choice([1, 1, 2, 3])
-    case.update({"geno": _geno(rng, m, n, p), "u": _effects(rng, p, t)})
+    m = rng.choice([1, 2, 2, 2, 3, 4]); n = rng.choice([1, 2, 3, 4, 5]); t = rng.choice([1, 1, 2, 3])
+    us = rng.choice(USCALES)
+    case.update({"geno": _geno(rng, m, n, p), "u": [[x * 2.0 ** us for x in r] for r in _effects(rng, p, t)], "uscale": us})
+    if kind != "haplomat":
+        case["route"] = rng.choice(ROUTES)                         # how the genotype matrix object is obtained (library's own routes)
+        if case["route"] == "shuffle": case["perm"] = rng.sample(range(p), p)
+        if case["route"] == "select":
+            extra = rng.randint(1, 2)
+            case["extra_taxa"] = [[[rng.randint(0, 1) for _ in range(p)] for _ in range(extra)] for _ in range(m)]
+            order = list(range(n + extra)); rng.shuffle(order)
+            case["taxa_order"] = order                             # positions of the n + extra taxa in the big matrix
     if kind == "ohv":
         case["cls"] = rng.choice(["Subset", "Subset", "Real", "Integer", "Binary"])
         case["nparent"] = rng.choice([1, 2, 2, 2, 3]); case["uniq"] = rng.random() < 0.5
@@ -145,11 +186,25 @@ def _one(rng, kind):
         ncfg = len(_xmap(n, case["nparent"], case["uniq"]))
         ncross = rng.choice([1, 2, 3])
         if case["cls"] == "Subset": ncross = min(ncross, ncfg)
-        if case["cls"] == "Subset": case["x"] = [[rng.randrange(ncfg) for _ in range(ncross)] for _ in range(2)]
-        elif case["cls"] == "Real": case["x"] = [[rng.randint(0, 8) / 4 + 0.25 for _ in range(ncfg)] for _ in range(2)]
-        elif case["cls"] == "Integer": case["x"] = [[rng.randint(0, 3) + (1 if i == 0 else 0) for i in range(ncfg)] for _ in range(2)]
-        else: case["x"] = [[(1 if i == 0 else rng.randint(0, 1)) for i in range(ncfg)] for _ in range(2)]
+        case["x"] = _ohv_x(rng, case["cls"], ncfg, ncross)
         case["ncross"] = ncross
+        case["ploidy_arg"] = rng.choice([1, 2, 3, 4])              # _calc_ohvmat's own ploidy parameter (not necessarily the number of phases)
+        if rng.random() < 0.45:
+            # session: the SAME protocol object, genotype matrix and model are reused after setter / in-place updates
+            s2 = {"nhap": _pick_nhap(rng, nchr, p), "uniq": rng.random() < 0.5}
+            if rng.random() < 0.6: s2["geno"] = _geno(rng, m, n, p)
+            if rng.random() < 0.6: s2["u"] = [[x * 2.0 ** us for x in r] for r in _effects(rng, p, t)]
+            if rng.random() < 0.4:
+                k2 = rng.choice([-3, -1, 1, 2]); s2["pos"] = [x * 2.0 ** k2 + (1.0 if k == 0 else 0.0) for x in pos]
+            np2 = case["nparent"]
+            if s2["uniq"] and np2 > n: np2 = n
+            s2["nparent"] = np2
+            ncfg2 = len(_xmap(n, np2, s2["uniq"]))
+            if case["cls"] == "Subset" and ncross > ncfg2:             # the subset problem needs at least ncross configurations in both states
+                ncross = ncfg2; case["ncross"] = ncross; case["x"] = _ohv_x(rng, case["cls"], ncfg, ncross)
+            s2["x"] = _ohv_x(rng, case["cls"], ncfg2, ncross)
+            s2["nhap"] = max(1, s2["nhap"]); case["nhap"] = max(1, case["nhap"])   # the protocol's own argument check rejects 0 blocks
+            case["session"] = s2
     elif kind == "opv":
         case["x"] = [[rng.randrange(n) for _ in range(rng.randint(1, 4))] for _ in range(3)]
     elif kind == "gb":
@@ -158,13 +213,86 @@ def _one(rng, kind):
         case["nbest"] = rng.randint(1, min(k, n))
     return case
 
+def _ohv_x(rng, cls, ncfg, ncross):
+    if cls == "Subset": return [[rng.randrange(ncfg) for _ in range(min(ncross, ncfg))] for _ in range(2)]
+    if cls == "Real": return [[rng.randint(0, 8) / 4 + 0.25 for _ in range(ncfg)] for _ in range(2)]
+    if cls == "Integer": return [[rng.randint(0, 3) + (1 if i == 0 else 0) for i in range(ncfg)] for _ in range(2)]
+    return [[(1 if i == 0 else rng.randint(0, 1)) for i in range(ncfg)] for _ in range(2)]
+
 def _xmap(n, k, uniq):
     return [list(c) for c in (itertools.combinations(range(n), k) if uniq else itertools.combinations_with_replacement(range(n), k))]
 
 WITNESS = {"kind": "haplomat", "pos": [0.0, 1 / 64, 2 / 64, 3 / 64, 1.0], "clen": [5], "nhap": 3, "styles": ["cluster"],
            "geno": [[[1, 1, 1, 1, 1], [1, 0, 1, 0, 1]], [[0, 1, 1, 0, 1], [1, 1, 0, 0, 0]]], "u": [[1.0], [2.0], [-1.0], [0.5], [4.0]]}
 
+# ------------------------------------------------------------------ entry points (enumerated at run time, fail closed)
+ENTRY = {   # module -> {function or Class.member: how it is exercised}
+    "pybrops.core.util.haplo": {
+        "nhaploblk_chrom": "every case", "haplobin": "every case with a valid total (also explicit per-chromosome counts)",
+        "haplobin_bounds": "every case", "haplomat": "kind haplomat"},
+    "pybrops.breed.prot.sel.prob.OptimalHaploidValueSelectionProblem": {
+        "OptimalHaploidValueSelectionProblemMixin.nlatent": "kind ohv", "OptimalHaploidValueSelectionProblemMixin.ohvmat": "getter every ohv case, setter in the lifecycle block",
+        "OptimalHaploidValueSelectionProblemMixin._calc_haplomat": "kind ohv (direct call)", "OptimalHaploidValueSelectionProblemMixin._calc_xmap": "kind ohv (protocol and factory)",
+        "OptimalHaploidValueSelectionProblemMixin._calc_ohvmat": "kind ohv: factory (mem=1024) and direct call with mem in {None,1,2,3,1024} and its own ploidy argument",
+        **{"OptimalHaploidValue%sSelectionProblem.%s" % (c, f): "kind ohv, cls %s" % c for c in ("Subset", "Real", "Integer", "Binary")
+           for f in ("__init__", "latentfn", "from_pgmat_gpmod")}},
+    "pybrops.breed.prot.sel.prob.OptimalPopulationValueSelectionProblem": {
+        "OptimalPopulationValueSelectionProblemMixin.nlatent": "kind opv", "OptimalPopulationValueSelectionProblemMixin.haplomat": "getter every opv case, setter in the lifecycle block",
+        "OptimalPopulationValueSelectionProblemMixin.ploidy": "kind opv (1-4 phases)", "OptimalPopulationValueSelectionProblemMixin._calc_haplomat": "kind opv (through the factory)",
+        **{"OptimalPopulationValueSubsetSelectionProblem.%s" % f: "kind opv" for f in ("__init__", "latentfn", "from_pgmat_gpmod")}},
+    "pybrops.breed.prot.sel.prob.GenotypeBuilderSelectionProblem": {
+        "GenotypeBuilderSelectionProblemMixin.nlatent": "kind gb", "GenotypeBuilderSelectionProblemMixin.haplomat": "getter every gb case, setter in the lifecycle block",
+        "GenotypeBuilderSelectionProblemMixin.ploidy": "kind gb", "GenotypeBuilderSelectionProblemMixin.nbestfndr": "kind gb (1..#selected, through the constructor)",
+        "GenotypeBuilderSelectionProblemMixin._calc_haplomat": "kind gb (through the factory)", "GenotypeBuilderSelectionProblemMixin.from_pgmat_gpmod": "kind gb",
+        **{"GenotypeBuilderSubsetSelectionProblem.%s" % f: "kind gb" for f in ("__init__", "latentfn")}},
+    "pybrops.breed.prot.sel.OptimalHaploidValueSelection": {
+        "OptimalHaploidValueSelectionMixin.ntrait": "constructor", "OptimalHaploidValueSelectionMixin.nhaploblk": "constructor; setter in sessions",
+        "OptimalHaploidValueSelectionMixin.unique_parents": "constructor; setter in sessions",
+        **{"OptimalHaploidValue%sSelection.%s" % (c, f): "kind ohv, cls %s" % c for c in ("Subset", "Real", "Integer", "Binary") for f in ("__init__", "problem")}},
+}
+SKIPPED = {
+    "OptimalHaploidValueSelectionProblemMixin.from_pgmat_gpmod": "abstract (raises NotImplementedError); the four concrete factories are covered",
+    "OptimalPopulationValueSelectionProblemMixin.from_pgmat_gpmod": "abstract (raises NotImplementedError); the concrete factory is covered",
+}
+PARAMS = {   # parameters of the anchored functions / static methods: a new parameter must be classified here (and exercised) first
+    "pybrops.core.util.haplo:nhaploblk_chrom": ["nhaploblk", "genpos", "chrgrp_stix", "chrgrp_spix"],
+    "pybrops.core.util.haplo:haplobin": ["nhaploblk_chrom", "genpos", "chrgrp_stix", "chrgrp_spix"],
+    "pybrops.core.util.haplo:haplobin_bounds": ["haplobin"],
+    "pybrops.core.util.haplo:haplomat": ["nhaploblk", "genomemat", "genpos", "chrgrp_stix", "chrgrp_spix", "chrgrp_len", "u_a"],
+    "pybrops.breed.prot.sel.prob.OptimalHaploidValueSelectionProblem:OptimalHaploidValueSelectionProblemMixin._calc_haplomat": ["pgmat", "gpmod", "nhaploblk"],
+    "pybrops.breed.prot.sel.prob.OptimalHaploidValueSelectionProblem:OptimalHaploidValueSelectionProblemMixin._calc_xmap": ["ntaxa", "nparent", "unique_parents"],
+    "pybrops.breed.prot.sel.prob.OptimalHaploidValueSelectionProblem:OptimalHaploidValueSelectionProblemMixin._calc_ohvmat": ["ploidy", "haplomat", "xmap", "mem"],
+    "pybrops.breed.prot.sel.prob.OptimalPopulationValueSelectionProblem:OptimalPopulationValueSelectionProblemMixin._calc_haplomat": ["pgmat", "algpmod", "nhaploblk"],
+    "pybrops.breed.prot.sel.prob.GenotypeBuilderSelectionProblem:GenotypeBuilderSelectionProblemMixin._calc_haplomat": ["pgmat", "gpmod", "nhaploblk"],
+}
+
+def _check_entry_points():
+    """every public function / class member defined in the anchored modules is classified (covered or skipped with a reason)"""
+    import importlib, inspect
+    problems = []
+    for mname, table in ENTRY.items():
+        M = importlib.import_module(mname)
+        found = set()
+        for n, o in vars(M).items():
+            if getattr(o, "__module__", None) != mname: continue
+            if inspect.isfunction(o): found.add(n)
+            elif inspect.isclass(o):
+                for k in vars(o):
+                    if k == "__init__" or not k.startswith("_") or k.startswith("_calc"): found.add(n + "." + k)
+        known = set(table) | {k for k in SKIPPED}
+        for x in sorted(found - known): problems.append("%s: %s is neither covered nor skipped" % (mname, x))
+        for x in sorted(set(table) - found): problems.append("%s: %s is classified but no longer exists" % (mname, x))
+    for key, want in PARAMS.items():
+        mname, qual = key.split(":")
+        o = importlib.import_module(mname)
+        for part in qual.split("."): o = getattr(o, part)
+        got = list(inspect.signature(o).parameters)
+        if got != want: problems.append("%s: parameters are now %r (classified: %r)" % (key, got, want))
+    if problems:
+        raise RuntimeError("C18 entry-point table is out of date: " + "; ".join(problems))
+
 def gen_cases(rng, tier):
+    _check_entry_points()
     cases = []
     # fixed corner cases: the baseline fixture, the witness of the (repaired) empty-bin defect, boundary ties, single markers
     fix = {"kind": "helpers", "nhap": 5, "clen": [7, 4, 6], "styles": ["fixture"] * 3,
@@ -193,6 +321,24 @@ def gen_cases(rng, tier):
     cases.append(w2)
     w3 = dict(WITNESS); w3.update({"kind": "ohv", "cls": "Subset", "nparent": 2, "uniq": True, "mem": None, "ncross": 1, "x": [[0], [0]]})
     cases.append(w3)
+    # exactly one block more than a chromosome has markers must raise in every builder (and exactly as many must not)
+    geno3 = [[[1, 0, 1], [0, 1, 1]], [[1, 1, 0], [0, 0, 1]]]; u3 = [[1.0], [2.0], [-0.5]]
+    for kind, extra in (("haplomat", {}), ("opv", {"x": [[0, 1], [1]], "route": "ctor"}), ("gb", {"x": [[0, 1]], "nbest": 1, "route": "ctor"}),
+                        ("ohv", {"cls": "Subset", "nparent": 2, "uniq": True, "mem": None, "ncross": 1, "x": [[0], [0]], "route": "ctor", "ploidy_arg": 3})):
+        for nh in (4, 3):
+            c = {"kind": kind, "pos": [0.0, 0.5, 1.0], "clen": [3], "styles": ["even"], "nhap": nh, "geno": geno3, "u": u3}
+            c.update(extra); cases.append(c)
+        c = {"kind": kind, "pos": [0.0, 0.5, 1.0, 0.0, 8.0], "clen": [3, 2], "styles": ["even", "even"], "nhap": 4,   # apportioned [1, 3] > [3, 2]
+             "geno": [[g + [1, 0] for g in ph] for ph in geno3], "u": u3 + [[4.0], [0.25]]}
+        c.update(extra); cases.append(c)
+    # more blocks / markers than a narrow integer type can count (labels above 127 and above 255)
+    cases.append({"kind": "helpers", "nhap": 280, "clen": [300], "styles": ["even"], "pos": [j * 0.25 for j in range(300)]})
+    cases.append({"kind": "helpers", "nhap": 140, "clen": [100, 90], "styles": ["grid", "even"], "pos": [j * 0.5 for j in range(100)] + [3.0 + j * 0.125 for j in range(90)]})
+    # more cross configurations than the chunk size used by from_pgmat_gpmod (mem = 1024): 47 taxa, 1081 distinct pairs
+    r47 = __import__("random").Random(47)
+    cases.append({"kind": "ohv", "cls": "Subset", "nparent": 2, "uniq": True, "mem": 1024, "ncross": 2, "route": "ctor", "ploidy_arg": 2,
+                  "pos": [0.0, 1.0, 2.0, 4.0], "clen": [4], "styles": ["grid"], "nhap": 2, "x": [[0, 1080], [1023, 1024]],
+                  "geno": [[[r47.randint(0, 1) for _ in range(4)] for _ in range(47)] for _ in range(2)], "u": [[1.0], [-2.0], [0.5], [3.0]]})
     N = {"helpers": 150, "haplomat": 40, "ohv": 60, "opv": 30, "gb": 25} if tier == "quick" else \
         {"helpers": 5000, "haplomat": 1200, "ohv": 2000, "opv": 900, "gb": 700}
     for kind, n in N.items():
@@ -232,13 +378,37 @@ def _fl(a):
     return [_fl(x) for x in a]
 
 def _pg_gp(case):
+    """the genotype matrix object and the genomic model of a case; the matrix is obtained through the route named by the case:
+    constructor, copy / deepcopy of a constructed object, the `mat` setter, variants given in shuffled order and sorted by
+    group_vrnt(), or select_taxa() out of a larger population"""
+    import copy as _copy
     from pybrops.popgen.gmat.DensePhasedGenotypeMatrix import DensePhasedGenotypeMatrix
     from pybrops.model.gmod.DenseAdditiveLinearGenomicModel import DenseAdditiveLinearGenomicModel
     mat = numpy.array(case["geno"], dtype="int8")
     p = mat.shape[2]; t = len(case["u"][0])
     chrgrp = numpy.repeat(numpy.arange(1, len(case["clen"]) + 1), case["clen"])
-    pg = DensePhasedGenotypeMatrix(mat, vrnt_chrgrp=chrgrp, vrnt_phypos=numpy.arange(1, p + 1), vrnt_genpos=numpy.array(case["pos"], dtype=float))
-    pg.group_vrnt()
+    phypos = numpy.arange(1, p + 1); genpos = numpy.array(case["pos"], dtype=float)
+    route = case.get("route", "ctor")
+    if route == "shuffle":
+        perm = numpy.array(case["perm"])
+        pg = DensePhasedGenotypeMatrix(mat[:, :, perm].copy(), vrnt_chrgrp=chrgrp[perm], vrnt_phypos=phypos[perm], vrnt_genpos=genpos[perm])
+    elif route == "matset":
+        pg = DensePhasedGenotypeMatrix(numpy.zeros_like(mat), vrnt_chrgrp=chrgrp, vrnt_phypos=phypos, vrnt_genpos=genpos)
+        pg.group_vrnt()
+        pg.mat = mat
+    elif route == "select":
+        order = case["taxa_order"]; n = mat.shape[1]
+        big = numpy.concatenate([mat, numpy.array(case["extra_taxa"], dtype="int8")], axis=1)[:, order, :]
+        where = [order.index(i) for i in range(n)]                 # where the case's taxa sit in the big population
+        pg0 = DensePhasedGenotypeMatrix(big, vrnt_chrgrp=chrgrp, vrnt_phypos=phypos, vrnt_genpos=genpos)
+        pg0.group_vrnt()
+        pg = pg0.select_taxa(where)
+    else:
+        pg = DensePhasedGenotypeMatrix(mat, vrnt_chrgrp=chrgrp, vrnt_phypos=phypos, vrnt_genpos=genpos)
+    if route not in ("matset", "select"):
+        pg.group_vrnt()
+    if route == "deepcopy": pg = _copy.deepcopy(pg)
+    if route == "copy": pg = _copy.copy(pg)
     gp = DenseAdditiveLinearGenomicModel(beta=numpy.zeros((1, t)), u_misc=None, u_a=numpy.array(case["u"], dtype=float),
                                          trait=numpy.array(["t%d" % i for i in range(t)], dtype=object))
     return pg, gp
@@ -248,73 +418,159 @@ def run_impl(case):
     with _Instrumented():
         return _run(case, haplo)
 
+def _lifecycle(prob, attr, xs, dt):
+    """the latent function along the object's life: called twice, on a deep copy and on a shallow copy, after the matrix setter
+    received twice the matrix (state at the call decides, nothing memoised), with the stored matrix and the argument unchanged"""
+    import copy as _copy
+    out = {}
+    M0 = numpy.array(getattr(prob, attr), copy=True)
+    xa = [numpy.array(x, dtype=dt) for x in xs]
+    xb = [a.copy() for a in xa]
+    out["twice"] = [_fl(prob.latentfn(a)) for a in xa]
+    out["kept"] = bool(numpy.array_equal(getattr(prob, attr), M0, equal_nan=True) and all(numpy.array_equal(a, b) for a, b in zip(xa, xb)))
+    out["deep"] = [_fl(_copy.deepcopy(prob).latentfn(a)) for a in xa]
+    out["shallow"] = [_fl(_copy.copy(prob).latentfn(a)) for a in xa]
+    setattr(prob, attr, 2.0 * M0)
+    out["doubled"] = [_fl(prob.latentfn(a)) for a in xa]
+    setattr(prob, attr, M0)
+    return out
+
+def _run_ohv(case, out, objs=None):
+    """build the OHV problem of `case` through the selection protocol; `objs` = (selection object, genotype matrix, model) of an
+    earlier state that are REUSED after setter / in-place updates (session) instead of fresh ones"""
+    import pybrops.breed.prot.sel.OptimalHaploidValueSelection as S
+    import pybrops.breed.prot.sel.prob.OptimalHaploidValueSelectionProblem as P
+    nhap = case["nhap"]; t = len(case["u"][0])
+    pcls = getattr(P, "OptimalHaploidValue%sSelectionProblem" % case["cls"])
+    if objs is None:
+        pg, gp = _pg_gp(case)
+        sel = _try(lambda: getattr(S, "OptimalHaploidValue%sSelection" % case["cls"])(
+            ntrait=t, nhaploblk=nhap, unique_parents=case["uniq"], ncross=case["ncross"], nparent=case["nparent"],
+            nmating=1, nprogeny=1, nobj=t))
+        if isinstance(sel, dict):                                  # the protocol's own argument check (nhaploblk = 0)
+            h = _try(lambda: pcls._calc_haplomat(pg, gp, nhap))
+            out["hmat"] = h if isinstance(h, dict) else _fl(h)
+            out["prob"] = sel; return None
+    else:
+        sel, pg, gp = objs
+        sel.nhaploblk = nhap; sel.unique_parents = case["uniq"]; sel.nparent = case["nparent"]
+        pg.mat[...] = numpy.array(case["geno"], dtype="int8")          # in-place updates of the SAME arrays
+        pg.vrnt_genpos[...] = numpy.array(case["pos"], dtype=float)
+        gp.u_a[...] = numpy.array(case["u"], dtype=float)
+    h = _try(lambda: pcls._calc_haplomat(pg, gp, nhap))
+    out["hmat"] = h if isinstance(h, dict) else _fl(h)
+    prob = _try(lambda: sel.problem(pg, None, None, None, gp, 0, 1))
+    if isinstance(prob, dict):
+        out["prob"] = prob; return (sel, pg, gp)
+    out["ohvmat"] = _fl(prob.ohvmat)
+    out["xmap"] = numpy.asarray(prob.decn_space_xmap).tolist()
+    out["nlatent"] = int(prob.nlatent)
+    if not isinstance(h, dict):
+        pa = case.get("ploidy_arg", h.shape[0])
+        o2 = _try(lambda: pcls._calc_ohvmat(pa, h, numpy.asarray(prob.decn_space_xmap), case["mem"]))
+        out["ohvmat_mem"] = o2 if isinstance(o2, dict) else _fl(o2)
+    dt = {"Subset": int, "Real": float, "Integer": int, "Binary": int}[case["cls"]]
+    out["latent"] = [_fl(prob.latentfn(numpy.array(x, dtype=dt))) for x in case["x"]]
+    if "route" in case:
+        out["life"] = _try(lambda: _lifecycle(prob, "ohvmat", case["x"], dt))
+        out["inputs_kept"] = bool(numpy.array_equal(pg.mat, numpy.array(case["geno"], dtype="int8"))
+                                  and numpy.array_equal(pg.vrnt_genpos, numpy.array(case["pos"], dtype=float))
+                                  and numpy.array_equal(gp.u_a, numpy.array(case["u"], dtype=float)))
+    return (sel, pg, gp)
+
+def _second(case):
+    """the second state of a session as a case of its own"""
+    c2 = {k: v for k, v in case.items() if k != "session"}
+    c2.update(case["session"])
+    return c2
+
 def _run(case, haplo):
+    out = {}
+    _run_helpers(case, haplo, out)
     pos = numpy.array(case["pos"], dtype=float)
     st, sp = _bounds(case["clen"]); stix, spix = numpy.array(st), numpy.array(sp)
-    nhap = case["nhap"]; out = {}
+    nhap = case["nhap"]
+    kind = case["kind"]
+    if kind == "helpers":
+        return out
+    return _run_rest(case, haplo, out, pos, stix, spix, nhap, kind)
+
+def _run_helpers(case, haplo, out):
+    pos = numpy.array(case["pos"], dtype=float)
+    st, sp = _bounds(case["clen"]); stix, spix = numpy.array(st), numpy.array(sp)
+    nhap = case["nhap"]
+    keep = (pos.copy(), stix.copy(), spix.copy())
     nb = _try(lambda: haplo.nhaploblk_chrom(nhap, pos, stix, spix))
     out["nblk"] = nb if isinstance(nb, dict) else [int(x) for x in nb]
     use = case.get("nblk", None if isinstance(nb, dict) else out["nblk"])
     if use is not None:
-        hb = haplo.haplobin(numpy.array(use), pos, stix, spix)
+        ua = numpy.array(use); ub = ua.copy()
+        hb = haplo.haplobin(ua, pos, stix, spix)
         out["hbin"] = [int(x) for x in hb]
+        hb0 = hb.copy()
         b = haplo.haplobin_bounds(hb)
         out["bounds"] = [[int(x) for x in a] for a in b]
-    kind = case["kind"]
-    if kind == "helpers":
-        return out
+        out["helpers_kept"] = bool(numpy.array_equal(ua, ub) and numpy.array_equal(hb, hb0))
+    out["helpers_kept"] = bool(out.get("helpers_kept", True) and numpy.array_equal(pos, keep[0]) and numpy.array_equal(stix, keep[1])
+                               and numpy.array_equal(spix, keep[2]))
+
+def _run_rest(case, haplo, out, pos, stix, spix, nhap, kind):
     geno = numpy.array(case["geno"], dtype="int8"); u = numpy.array(case["u"], dtype=float)
     before = (geno.copy(), u.copy(), pos.copy())
     if kind == "haplomat":
-        h = _try(lambda: haplo.haplomat(nhap, geno, pos, stix, spix, numpy.array(case["clen"]), u))
+        clen = numpy.array(case["clen"])
+        h = _try(lambda: haplo.haplomat(nhap, geno, pos, stix, spix, clen, u))
         out["hmat"] = h if isinstance(h, dict) else _fl(h)
         out["unchanged"] = bool(numpy.array_equal(geno, before[0]) and numpy.array_equal(u, before[1]) and numpy.array_equal(pos, before[2]))
+        if not isinstance(h, dict):
+            # aliasing: the result does not share memory with the inputs (in-place writes on either side do not reach the other),
+            # and a second call on the same arrays returns the same result (nothing cached, nothing damaged)
+            h0 = h.copy()
+            h[...] = 7.0
+            out["unchanged"] = bool(out["unchanged"] and numpy.array_equal(geno, before[0]) and numpy.array_equal(u, before[1])
+                                    and numpy.array_equal(pos, before[2]))
+            h2 = _try(lambda: haplo.haplomat(nhap, geno, pos, stix, spix, clen, u))
+            out["again"] = h2 if isinstance(h2, dict) else _fl(h2)
+            if not isinstance(h2, dict):
+                g2 = geno.copy(); u2 = u.copy(); keep2 = h2.copy()
+                geno[...] = 1 - geno; u[...] = u + 1.0
+                out["result_detached"] = bool(numpy.array_equal(h2, keep2, equal_nan=True))
+                geno[...] = g2; u[...] = u2
         return out
-    pg, gp = _pg_gp(case)
     n = geno.shape[1]; t = u.shape[1]
     if kind == "ohv":
-        import pybrops.breed.prot.sel.OptimalHaploidValueSelection as S
-        import pybrops.breed.prot.sel.prob.OptimalHaploidValueSelectionProblem as P
-        pcls = getattr(P, "OptimalHaploidValue%sSelectionProblem" % case["cls"])
-        h = _try(lambda: pcls._calc_haplomat(pg, gp, nhap))
-        out["hmat"] = h if isinstance(h, dict) else _fl(h)
-        def build():
-            sel = getattr(S, "OptimalHaploidValue%sSelection" % case["cls"])(
-                ntrait=t, nhaploblk=nhap, unique_parents=case["uniq"], ncross=case["ncross"], nparent=case["nparent"],
-                nmating=1, nprogeny=1, nobj=t)
-            return sel.problem(pg, None, None, None, gp, 0, 1)
-        prob = _try(build)
-        if isinstance(prob, dict):
-            out["prob"] = prob; return out
-        out["ohvmat"] = _fl(prob.ohvmat)
-        out["xmap"] = numpy.asarray(prob.decn_space_xmap).tolist()
-        out["nlatent"] = int(prob.nlatent)
-        if not isinstance(h, dict):
-            o2 = _try(lambda: pcls._calc_ohvmat(h.shape[0], h, numpy.asarray(prob.decn_space_xmap), case["mem"]))
-            out["ohvmat_mem"] = o2 if isinstance(o2, dict) else _fl(o2)
-        dt = {"Subset": int, "Real": float, "Integer": int, "Binary": int}[case["cls"]]
-        out["latent"] = [_fl(prob.latentfn(numpy.array(x, dtype=dt))) for x in case["x"]]
+        objs = _run_ohv(case, out)
+        if "session" in case:
+            c2 = _second(case)
+            o2 = {}; _run_helpers(c2, haplo, o2)
+            r = _try(lambda: _run_ohv(c2, o2, objs))
+            out["second"] = r if isinstance(r, dict) else o2
+            o3 = {}; _run_helpers(c2, haplo, o3)
+            r = _try(lambda: _run_ohv(c2, o3, None))
+            out["second_fresh"] = r if isinstance(r, dict) else o3
         return out
+    pg, gp = _pg_gp(case)
     if kind == "opv":
         from pybrops.breed.prot.sel.prob.OptimalPopulationValueSelectionProblem import OptimalPopulationValueSubsetSelectionProblem as C
         prob = _try(lambda: C.from_pgmat_gpmod(nhap, pg, gp, ndecn=1, decn_space=numpy.arange(n), decn_space_lower=numpy.repeat(0, 1),
                                                decn_space_upper=numpy.repeat(n - 1, 1), nobj=t))
-        if isinstance(prob, dict):
-            out["hmat"] = prob; return out
-        out["hmat"] = _fl(prob.haplomat); out["ploidy"] = int(prob.ploidy); out["nlatent"] = int(prob.nlatent)
-        out["latent"] = [_fl(prob.latentfn(numpy.array(x, dtype=int))) for x in case["x"]]
-        return out
-    if kind == "gb":
+    elif kind == "gb":
         from pybrops.breed.prot.sel.prob.GenotypeBuilderSelectionProblem import GenotypeBuilderSubsetSelectionProblem as C
         k = min(len(case["x"][0]), n)
         prob = _try(lambda: C.from_pgmat_gpmod(pg, gp, nhap, case["nbest"], ndecn=k, decn_space=numpy.arange(n),
                                                decn_space_lower=numpy.repeat(0, k), decn_space_upper=numpy.repeat(n - 1, k), nobj=t))
-        if isinstance(prob, dict):
-            out["hmat"] = prob; return out
-        out["hmat"] = _fl(prob.haplomat); out["ploidy"] = int(prob.ploidy); out["nlatent"] = int(prob.nlatent)
-        out["latent"] = [_fl(prob.latentfn(numpy.array(x, dtype=int))) for x in case["x"]]
-        return out
-    raise ValueError(kind)
+    else:
+        raise ValueError(kind)
+    if isinstance(prob, dict):
+        out["hmat"] = prob; return out
+    out["hmat"] = _fl(prob.haplomat); out["ploidy"] = int(prob.ploidy); out["nlatent"] = int(prob.nlatent)
+    out["latent"] = [_fl(prob.latentfn(numpy.array(x, dtype=int))) for x in case["x"]]
+    if "route" in case:
+        out["life"] = _try(lambda: _lifecycle(prob, "haplomat", case["x"], int))
+        keep3 = numpy.array(prob.haplomat, copy=True)
+        pg.mat[...] = 1 - pg.mat; gp.u_a[...] = gp.u_a + 1.0       # later in-place changes of the inputs do not reach the problem
+        out["result_detached"] = bool(numpy.array_equal(prob.haplomat, keep3, equal_nan=True))
+    return out
 
 # ------------------------------------------------------------------ Coq emitter
 def _fh(h): return float.fromhex(h)
@@ -388,6 +644,9 @@ def emit_case(case, out):
     parts.append("res_eqb hmat_eqb %s %s" % (HM, _hm(out["hmat"], kind)))
     if kind == "haplomat" or isinstance(out["hmat"], dict) or "prob" in out:
         if kind != "haplomat" and not isinstance(out["hmat"], dict): return "false"
+        if "session" in case:
+            if not isinstance(out.get("second"), dict) or "exc" in out["second"]: return "false"
+            parts.append(emit_case(_second(case), out["second"]))
         return "(" + "\n   && ".join(parts) + ")"
     H = "(match %s with Ok h => h | Err _ => [] end)" % HM
     L2 = lambda rows: E.lst(rows, lambda r: E.lst(r, _oq))
@@ -399,13 +658,17 @@ def emit_case(case, out):
         parts.append("oqll_agree %s %s" % (OHV, L2(out["ohvmat"])))
         if "ohvmat_mem" in out:
             if isinstance(out["ohvmat_mem"], dict): return "false"
-            parts.append("oqll_agree %s %s" % (OHV, L2(out["ohvmat_mem"])))
+            OHVp = "(calc_ohvmat %s %s %s %s %s)" % (E.z(case.get("ploidy_arg", m)), nat(nhap), nat(t), H, X)
+            parts.append("oqll_agree %s %s" % (OHVp, L2(out["ohvmat_mem"])))
         parts.append("Nat.eqb %s %s" % (nat(out["nlatent"]), nat(t)))
         for x, lat in zip(case["x"], out["latent"]):
             if case["cls"] == "Subset":
                 parts.append("oql_close (ohv_latent %s %s %s) %s" % (nat(t), OHV, E.lst(x, nat), E.lst(lat, _oq)))
             else:
                 parts.append("oql_close (ohv_latent_w %s %s %s) %s" % (nat(t), OHV, E.lst(x, lambda v: E.q(Fraction(v))), E.lst(lat, _oq)))
+        if "session" in case:                                      # the second state of the session, computed with the REUSED objects
+            if not isinstance(out.get("second"), dict) or "exc" in out["second"]: return "false"
+            parts.append(emit_case(_second(case), out["second"]))
     elif kind == "opv":
         parts.append("Nat.eqb %s %s && Nat.eqb %s %s" % (nat(out["ploidy"]), nat(m), nat(out["nlatent"]), nat(t)))
         for x, lat in zip(case["x"], out["latent"]):
@@ -458,9 +721,41 @@ def _empty_bin(case, out):
 def _F(h): return Fraction(_fh(h))
 
 def pred(case, out):
+    bad = _pred1(case, out)
+    if "session" in case and "exc" not in out:
+        # a result depends on the state at the call, never on an earlier call: the second problem built with the REUSED protocol
+        # object / genotype matrix / model (setters and in-place updates in between) is what fresh objects give, and satisfies the property
+        a, b = out.get("second"), out.get("second_fresh")
+        if not isinstance(a, dict) or not isinstance(b, dict): bad.append("session: second state missing")
+        elif a != b:
+            diff = sorted(k for k in set(a) | set(b) if a.get(k) != b.get(k))
+            bad.append("session: the second call on the reused objects differs from a fresh construction in %s" % ", ".join(diff))
+        if isinstance(a, dict):
+            bad += ["session (second state): " + c for c in _pred1(_second(case), a)]
+    return _dedup(bad)
+
+def _life_clauses(case, out, kind):
+    bad = []
+    if "route" not in case or "latent" not in out: return bad
+    lf = out.get("life")
+    if not isinstance(lf, dict) or "exc" in lf:
+        return ["latent function along the object's life raised: %r" % (lf,)]
+    lat = out["latent"]
+    if lf["twice"] != lat: bad.append("a second latentfn call on the same problem gives another value")
+    if lf["deep"] != lat: bad.append("latentfn of a deep copy of the problem differs")
+    if lf["shallow"] != lat: bad.append("latentfn of a shallow copy of the problem differs")
+    if not lf["kept"]: bad.append("latentfn changed the stored matrix or its argument")
+    dbl = [[None if v is None else (2.0 * _fh(v)).hex() for v in r] for r in lat]
+    if lf["doubled"] != dbl: bad.append("after the matrix setter received twice the matrix latentfn is not twice the former value (stale state)")
+    if out.get("inputs_kept") is False: bad.append("problem construction changed the genotype matrix / positions / effects")
+    if out.get("result_detached") is False: bad.append("the problem's matrix changed when the inputs were later updated in place (shared memory)")
+    return bad
+
+def _pred1(case, out):
     if "exc" in out:
         return ["implementation raised %s: %s" % (out["exc"], out["msg"])]
     bad = []
+    if out.get("helpers_kept") is False: bad.append("a helper changed one of its input arrays")
     pos = case["pos"]; clen = case["clen"]; st, sp = _bounds(clen); nhap = case["nhap"]; nchr = len(clen); p = len(pos)
     nb = out["nblk"]
     valid_sorted = not case.get("unsorted")
@@ -542,7 +837,10 @@ def pred(case, out):
                     bad.append("block values do not add up to the copy's additive value")
     if kind == "haplomat":
         if not out["unchanged"]: bad.append("inputs mutated")
+        if "again" in out and out["again"] != hm: bad.append("a second haplomat call on the same arrays gives another result")
+        if out.get("result_detached") is False: bad.append("the haplotype matrix changed when the inputs were later updated in place (shared memory)")
         return _dedup(bad)
+    bad += _life_clauses(case, out, kind)
     H = lambda ph, ind, j, i: hm[ph][ind][j][i]
     def best_sum(inds, i):
         s = Fraction(0)
@@ -574,7 +872,12 @@ def pred(case, out):
                         src = geno[rr.randrange(m)][rr.choice(par)]
                         dh += src[a:e]
                     if m * total(dh, i) > _F(got): bad.append("a block-boundary doubled haploid exceeds the optimal haploid value")
-        if "ohvmat_mem" in out and out["ohvmat_mem"] != ohv: bad.append("_calc_ohvmat depends on the memory chunk size")
+        if "ohvmat_mem" in out:
+            pa = case.get("ploidy_arg", m); om = out["ohvmat_mem"]
+            if isinstance(om, dict): bad.append("_calc_ohvmat raised %s" % om["exc"])
+            elif len(om) != len(ohv) or any((a is None) != (b is None) or (a is not None and _F(a) * m != _F(b) * pa)
+                                            for ra, rb in zip(om, ohv) for a, b in zip(ra, rb)):
+                bad.append("_calc_ohvmat(ploidy=%d, mem=%r) is not %d/%d times the problem's ohvmat (depends on the chunk size or ignores its ploidy argument)" % (pa, case["mem"], pa, m))
         if out["nlatent"] != t: bad.append("nlatent")
         for x, lat in zip(case["x"], out["latent"]):
             for i in range(t):
@@ -633,7 +936,9 @@ def describe(case, out):
                    ("=p" if case["nhap"] == len(case["pos"]) else (">p" if case["nhap"] > len(case["pos"]) else "between")))),
          "empty_bin": _empty_bin(case, out) if "exc" not in out else "?",
          "raised": isinstance(nb, dict) or isinstance(out.get("hmat"), dict),
-         "styles": "+".join(sorted(set(case.get("styles", []))))}
+         "styles": "+".join(sorted(set(case.get("styles", [])))),
+         "pscale": case.get("pscale", 0), "uscale": case.get("uscale", 0), "route": case.get("route", "-"),
+         "session": "session" in case, "phases": len(case["geno"]) if "geno" in case else 0}
     if isinstance(nb, list) and "hbin" in out and "nblk" not in case:
         st, sp = _bounds(case["clen"]); tie = False
         for a, b, n in zip(st, sp, nb):
@@ -656,3 +961,10 @@ def shrink(case, fails):
         if fails(t): cur = t
         else: break
     return cur
+
+
+def translate(repo, gen_dir):
+    """regenerate Gen/C18_Kernel.v (kernel expressions of haplo.py and of the OHV / OPV / genotype-builder problem modules) from the
+    current source; fail closed"""
+    from translate import c18_kernel
+    return [c18_kernel.translate(repo, gen_dir)]
